@@ -6,6 +6,6 @@ export GOFLAGS=-mod=mod GOPROXY=off GOSUMDB=off GOTOOLCHAIN=local
 mkdir -p .build evidence replays
 export GOCACHE="${GOCACHE:-$PWD/.build/gocache}"
 (cd extract && go build -o ../.build/extract .)
-./.build/extract /repo lean/Mamba/Gen .build/facts.json
+./.build/extract "${VERIF_REPO:-/repo}" lean/Mamba/Gen .build/facts.json
 (cd harness && go build -tags verif -o ../.build/vh .)
 (cd lean && lake build)
